@@ -355,6 +355,34 @@ let run_case (line : string) =
        | AServed v -> "served" ^ string_of_int (int_of_nat v)
        | ANotFound v -> "notfound" ^ string_of_int (int_of_nat v)
        | ABuildErr -> "builderr" | ANoSet -> "noset") ans))
+   | ["reloadconc"; first; threads; sched] ->
+     (* threads: one character per thread (+ Reload ok, - Reload failing, X/M/G requests); sched: thread numbers (one
+        character each, 0-9a-z).  A Reload's first occurrence = it enters the builder (its build gets the next call
+        number) and is no model step; its second = the build returns and the store follows: two model steps.  A
+        request's occurrence = load + look-up: two model steps. *)
+     let rec int_of_nat = function O -> 0 | S k -> 1 + int_of_nat k in
+     let n = String.length threads in
+     let idx c = if c >= '0' && c <= '9' then Char.code c - 48 else Char.code c - 87 in
+     let sched = if sched = "." then [] else List.init (String.length sched) (fun i -> idx sched.[i]) in
+     let calls = ref 1 in
+     let ver = Array.make n 0 and seen = Array.make n 0 in
+     let msched = List.concat_map (fun i ->
+       seen.(i) <- seen.(i) + 1;
+       match threads.[i] with
+       | '+' | '-' -> if seen.(i) = 1 then (incr calls; ver.(i) <- !calls; []) else if seen.(i) = 2 then [i; i] else []
+       | _ -> if seen.(i) = 1 then [i; i] else []) sched in
+     let ths = List.init n (fun i -> match threads.[i] with
+       | '+' -> TReload (BOk (nat_of_int ver.(i))) | '-' -> TReload BFail
+       | 'M' -> TReq false | _ -> TReq true) in
+     let c0 = if first = "1" then Some (nat_of_int 1) else None in
+     let s = crun (conc_init c0 ths) (List.map nat_of_int msched) in
+     let ans_s = function
+       | AReloadOk -> "rok" | AReloadErr -> "rerr"
+       | AServed v -> "served" ^ string_of_int (int_of_nat v)
+       | ANotFound v -> "notfound" ^ string_of_int (int_of_nat v)
+       | ABuildErr -> "builderr" | ANoSet -> "noset" in
+     add (String.concat " " (List.map (function TDone a -> ans_s a | _ -> "-") s.c_threads));
+     add (" cur=" ^ (match s.c_cur with Some v -> string_of_int (int_of_nat v) | None -> "none"))
    | ["xtpl"; ap; kws; files] ->
      let ap = str_of_field ap in
      let kws = List.map (fun k -> match String.split_on_char ':' k with
